@@ -901,6 +901,135 @@ def real_fault(case):
         shutil.rmtree(d, ignore_errors=True)
 
 
+# ------------------------------------------------------------------------------------------
+# unit: staged merges — merge_per_chunk_storage on sub-lists of the jobs of one grouping
+# ------------------------------------------------------------------------------------------
+
+SIX_CHUNKS = [[i * 10, i * 10 + 10, [[i * 10 + 1, i * 10 + 2, i, 0]]] for i in range(6)]
+STAGED_GROUPINGS = [[[i] for i in range(6)], [[0, 1], [2], [3, 4], [5]]]
+
+
+def staged_sublists(ctx, grouping, ndep):
+    """sub-lists of the jobs of one grouping: contiguous blocks (full, leading, tail, middle) and with holes.
+    Sub-lists with a hole that contain both chunk 0 and the last chunk are the merge_hole unit's (known) class."""
+    n = len(grouping)
+    blocks = [list(range(a, b)) for a in range(n) for b in range(a + 1, n + 1)]
+    holes = []
+    for k in range(2, n):
+        for idx in itertools.combinations(range(n), k):
+            if list(idx) != list(range(idx[0], idx[-1] + 1)):
+                chunks = [c for i in idx for c in grouping[i]]
+                if not (min(chunks) == 0 and max(chunks) == ndep - 1):
+                    holes.append(list(idx))
+    if not ctx.thorough:
+        full = [b for b in blocks if len(b) == n]
+        lead = [b for b in blocks if b[0] == 0 and len(b) < n]
+        tail = [b for b in blocks if b[-1] == n - 1 and len(b) < n]
+        mid = [b for b in blocks if b[0] > 0 and b[-1] < n - 1]
+        if n > 4:
+            mid = ctx.rng.sample(mid, 4)
+            holes = ctx.rng.sample(holes, 4)
+        else:
+            lead, tail, mid, holes = lead[-1:], tail[:1], mid[:1], holes[:1]
+        blocks = full + lead + tail + mid
+    return [[grouping[i] for i in idx] for idx in blocks + holes]
+
+
+def staged_eval(case_base, sublists):
+    """one directory: direct make, every job of the grouping once, then one merge per sub-list.
+    returns [(out, reason)] with out in {'none', 'tagged', 'err N'} (where the merged data went)"""
+    layout = unjl(case_base["layout"])
+    ndep = len(layout)
+    d = newdir()
+    res = []
+    try:
+        src, spath = store_layout(d, layout, "blosc", 4)
+        dst = mk_dst(0, 0, 1, 4, "blosc")
+
+        def fresh():
+            return context([d], [src, dst])
+        st = fresh()
+        with quiet():
+            final_key = str(st.key_for(RUN, "dst"))
+            st.make(RUN, "dst", progress_bar=False)
+        fpath = os.path.join(d, final_key)
+        direct_bytes = all_bytes(fpath)
+        shutil.rmtree(fpath)
+        made = set()
+        for sub in sublists:
+            for g in sub:
+                if tuple(g) not in made:
+                    with quiet():
+                        fresh().make(RUN, "dst", chunk_number={"src": list(g)}, progress_bar=False, processor="single_thread")
+                    made.add(tuple(g))
+        keep = set(os.listdir(d))
+        for sub in sublists:
+            combined = [c for g in sub for c in g]
+            full = sorted(combined) == list(range(ndep))
+            out, reason = None, None
+            try:
+                with quiet():
+                    fresh().merge_per_chunk_storage(RUN, "dst", "src", chunk_number_group=[list(g) for g in sub])
+            except Exception as e:  # noqa
+                out = "err %s" % err_code(e)
+            with quiet():
+                st = fresh()
+                plain = st.is_stored(RUN, "dst")
+                got = st.get_array(RUN, "dst", progress_bar=False).tobytes() if plain else None
+                try:
+                    tagged = st.is_stored(RUN, "dst", chunk_number={"src": combined}) if not full else False
+                except ValueError:      # chunk numbers with a hole are no valid tag
+                    tagged = False
+            if out is None:
+                out = "none" if plain else ("tagged" if tagged else "nowhere")
+            if plain and got != direct_bytes:
+                reason = ("after merge_per_chunk_storage(chunk_number_group=%s) of a %d-chunk dependency the target is "
+                          "reported as stored under the ordinary key but get_array returns %d bytes of rows, the directly "
+                          "made data has %d (partial merges must stay under tagged keys or be refused)"
+                          % (sub, ndep, len(got), len(direct_bytes)))
+            elif full and not plain:
+                reason = "merging all per-chunk results (%s) did not produce the data under the ordinary key: %s" % (sub, out)
+            res.append((out, reason))
+            for x in set(os.listdir(d)) - keep:
+                shutil.rmtree(os.path.join(d, x))
+        return res
+    finally:
+        shutil.rmtree(d, ignore_errors=True)
+
+
+def real_staged(case):
+    return staged_eval(case, [case["groups"]])[0]
+
+
+def line_staged(case):
+    groups = case["groups"]
+    return "merge_tag %d %d %s" % (len(case["layout"]), len(groups),
+                                   " ".join("%d %s" % (len(x), " ".join(str(i) for i in x)) for x in groups))
+
+
+def run_staged(ctx):
+    unit = "staged_merge"
+    dist, n, nontriv = {}, 0, set()
+    for grouping in STAGED_GROUPINGS:
+        base = {"unit": unit, "layout": SIX_CHUNKS}
+        subs = staged_sublists(ctx, grouping, len(SIX_CHUNKS))
+        cases = [dict(base, groups=sub) for sub in subs]
+        mout = lib.run_model("C16", [line_staged(c) for c in cases])
+        for case, mo, (out, reason) in zip(cases, mout, staged_eval(base, subs)):
+            n += 1
+            nontriv.add(lib.canon(case))
+            k = "%s (model %s)" % (out, mo)
+            dist[k] = dist.get(k, 0) + 1
+            if reason:
+                ctx.violation(unit, reason, {"input": case, "unit": unit, "impl": out, "model": mo})
+            elif out != mo:
+                ctx.violation(unit, "model and implementation disagree on where a staged merge is stored (impl %s | model %s), "
+                              "groups %s" % (out, mo, case["groups"]),
+                              {"input": "corr:C16/%s" % unit, "case": case, "unit": unit, "impl": out, "model": mo},
+                              no_failing_input=True)
+    ctx.count(unit, n, len(nontriv), dist)
+
+
 def run_fixed(ctx):
     groups = [("rechunker_same_dir", SAME_DIR_CASES, line_same_dir, real_same_dir),
               ("merge_hole", MERGE_HOLE_CASES, line_perchunk, real_merge_hole),
@@ -923,7 +1052,8 @@ def run_fixed(ctx):
         ctx.count(unit, len(cases), len(cases), dist)
 
 
-FIXED_REAL = {"rechunker_same_dir": real_same_dir, "merge_hole": real_merge_hole, "rechunker_fault": real_fault}
+FIXED_REAL = {"rechunker_same_dir": real_same_dir, "merge_hole": real_merge_hole, "rechunker_fault": real_fault,
+              "staged_merge": real_staged}
 
 # ------------------------------------------------------------------------------------------
 # driver
@@ -1049,6 +1179,7 @@ def run(ctx):
         for unit in UNITS:
             run_unit(ctx, unit)
         run_fixed(ctx)
+        run_staged(ctx)
     finally:
         threading.excepthook = hook
         shutil.rmtree(TMPROOT, ignore_errors=True)
